@@ -109,9 +109,17 @@ def _new_value(draw, old, key=None):
             return draw(st.integers(0, 20))
         return draw(st.integers(0, 1 << 20))
     if isinstance(old, bytes):
-        kind = draw(st.sampled_from(["empty", "flip", "shorter", "longer", "ff"]))
+        kind = draw(st.sampled_from(["empty", "flip", "shorter", "longer", "ff", "runs", "runs"]))
         if kind == "empty":
             return b""
+        if kind == "runs":
+            # long runs of one value, starting / ending in the middle of a byte or broken by a single bit (whatever
+            # displays or compares byte strings tends to treat runs specially)
+            k = len(old) - 1 if (len(old) >= 9 and draw(st.booleans())) else draw(st.integers(8, 40))
+            a = draw(st.integers(0, k))
+            return draw(st.sampled_from([b"\xf0" + b"\x00" * k, b"\x00" * k + b"\x0f", b"\xff" * k + b"\xfe", b"\x0f" + b"\xff" * k,
+                                         b"\x00" * (k + 1), b"\xff" * (k + 1), b"\xa5" + b"\x55" * k,
+                                         b"\x00" * a + bytes([1 << draw(st.integers(0, 7))]) + b"\x00" * (k - a)]))
         if kind == "flip" and old:
             i = draw(st.integers(0, len(old) - 1))
             return old[:i] + bytes([old[i] ^ (1 << draw(st.integers(0, 7)))]) + old[i + 1:]
@@ -152,7 +160,8 @@ def field_mutation(draw, desc, paths):
         "slices_x", "slices_y", "slice_bytes_numerator", "slice_bytes_denominator", "slice_prefix_bytes",
         "slice_size_scaler", "dwt_depth", "dwt_depth_ho", "wavelet_index", "wavelet_index_ho", "picture_coding_mode",
         "custom_quant_matrix", "asym_transform_flag", "asym_transform_index_flag", "frame_width", "frame_height",
-        "index", "luma_excursion", "color_diff_excursion", "frame_rate_denom", "pixel_aspect_ratio_denom")]
+        "index", "luma_excursion", "color_diff_excursion", "frame_rate_denom", "pixel_aspect_ratio_denom", "bytes",
+        "prefix_bytes")]
     for _ in range(n):
         pool = hot if (hot and draw(st.integers(0, 3)) != 0) else paths
         path = pool[draw(st.integers(0, len(pool) - 1))]
@@ -265,7 +274,7 @@ def byte_mutate(draw, data):
 def mutated_streams(draw, allow_valid=True):
     """(bytes, meta) – meta: {'base': name, 'mode': ..., 'ops': [...]}"""
     corp = C.corpus()
-    mode = draw(st.sampled_from(["bytes", "bytes", "field", "field", "bitfield", "bitfield", "bitfield", "unit", "field+bytes",
+    mode = draw(st.sampled_from(["payload", "bytes", "bytes", "field", "field", "bitfield", "bitfield", "bitfield", "unit", "field+bytes",
                                  "random", "prefix+random"]
                                 + (["valid"] if allow_valid else [])))
     if mode == "random":
@@ -291,6 +300,47 @@ def mutated_streams(draw, allow_valid=True):
         meta["ops"] = ops
         return data, meta
     data = entry["data"]
+    if mode == "payload":
+        # an otherwise conformant stream with an extra padding / auxiliary data unit carrying a drawn payload (long runs,
+        # runs broken in the middle of a byte, random bytes, parse-info look-alikes); offsets are recomputed
+        from vc2_conformance import bitstream as B
+        from vc2_conformance.bitstream.vc2_autofill import AUTO
+        from vpbt.gen import streams as S
+
+        d = copy.deepcopy(C.descriptions()[i])
+        for sq in d["sequences"]:
+            for u in sq["data_units"]:
+                pi = u.get("parse_info")
+                if pi is not None:
+                    pi["next_parse_offset"] = AUTO
+                    pi["previous_parse_offset"] = AUTO
+                    pi.pop("padding", None)
+        for _ in range(draw(st.integers(1, 2))):
+            sq = d["sequences"][draw(st.integers(0, len(d["sequences"]) - 1))]
+            units = sq["data_units"]
+            j = draw(st.integers(1, max(1, len(units) - 1)))
+            if draw(st.booleans()):
+                payload = draw(_new_value(b"\x00" * draw(st.integers(0, 24)), "bytes"))
+            else:
+                payload = draw(st.one_of(st.binary(max_size=48), st.sampled_from([b"BBCD", b"BBCD\x10" + b"\x00" * 8, b"\x00" * 64])))
+            if draw(st.booleans()):
+                pc = draw(st.sampled_from([0x20, 0x20, 0x20, 0x21, 0x27]))
+                # (autofill knows the length rule for code 0x20 only: the other auxiliary codes get an explicit offset)
+                pi = B.ParseInfo(parse_code=pc) if pc == 0x20 else B.ParseInfo(parse_code=pc, next_parse_offset=13 + len(payload))
+                unit = B.DataUnit(parse_info=pi, auxiliary_data=B.AuxiliaryData(bytes=payload))
+            else:
+                unit = B.DataUnit(parse_info=B.ParseInfo(parse_code=0x30), padding=B.Padding(bytes=payload))
+            units.insert(j, unit)
+            meta["ops"].append("%s:%d bytes" % ("aux" if "auxiliary_data" in unit else "padding", len(payload)))
+        try:
+            with S.deser_guard():
+                return S.serialise_stream(d), meta
+        except Exception as e:
+            meta["discarded"] = "%s:%s" % (meta["mode"], type(e).__name__)
+            meta["mode"] = "bytes(fallback)"
+            data, kinds = draw(byte_mutate(entry["data"]))
+            meta["ops"] = kinds
+            return data, meta
     if mode in ("field", "field+bytes", "unit"):
         desc = C.descriptions()[i]
         if mode == "unit":
@@ -336,7 +386,7 @@ def mutated_streams(draw, allow_valid=True):
         except Exception as e:  # mutated description not serialisable / out of scope: discard (counted)
             # not serialisable (e.g. padding lengths no longer match the changed geometry): count it and
             # fall back to a byte-level mutation of the base stream so the example is not wasted
-            meta["discarded"] = type(e).__name__
+            meta["discarded"] = "%s:%s" % (meta["mode"], type(e).__name__)
             meta["mode"] = "bytes(fallback)"
             data, kinds = draw(byte_mutate(entry["data"]))
             meta["ops"] = kinds
